@@ -308,6 +308,16 @@ impl LocalNode {
         }
     }
 
+    /// Counts the calling thread as a writer of its own node.
+    ///
+    /// A writer uses its own node for helping (the handover envelope in there). If a load nested
+    /// in the writer discards the node (see [`discard_node`][LocalNode::discard_node]) in the
+    /// middle of that, the node must not finish the cooldown and get claimed by some other
+    /// thread before the writer is done with it.
+    pub(crate) fn reserve_own_node(&self) -> NodeReservation<'static> {
+        self.node().reserve_writer()
+    }
+
     /// The node of this thread.
     ///
     /// It is usually already set by [`with`][LocalNode::with], but it may have been discarded in
